@@ -269,6 +269,15 @@ def m_list(interp, args, kwargs):
         src = interp.resolve(src)
     if isinstance(src, SList):
         return slist_copy(interp, src)
+    if isinstance(src, SLazyMap):
+        # interpreted from a Python model; its loop invariant belongs to the call site (spec 'map#k')
+        from .pymodels import functools_model
+        saved = src.frame.model_site
+        src.frame.model_site = src.site
+        try:
+            return interp.call(functools_model.map_list, [src.f, src.xs], {})
+        finally:
+            src.frame.model_site = saved
     if isinstance(src, SIter):
         # list(iterator over a symbolic sequence): its remaining items (the iterator is consumed)
         from . import seqs
@@ -408,9 +417,28 @@ def m_zip(interp, args, kwargs):
     return zip(*[interp.iterate(a) for a in args])
 
 
+class SLazyMap:
+    """map(f, xs) over a symbolic-length sequence, not consumed yet"""
+
+    def __init__(self, f, xs, frame, site):
+        self.f, self.xs, self.frame, self.site = f, xs, frame, site
+
+
 @model(builtins.map)
 def m_map(interp, args, kwargs):
     f = args[0]
+    if len(args) == 2:
+        src = args[1]
+        if isinstance(src, (SOpt, SChoice)):
+            src = interp.resolve(src)
+        if isinstance(src, SList):
+            # every map() over a symbolic sequence of a repository frame has an ordinal: 'map#k'
+            for fr in reversed(interp.frame_stack):
+                if not fr.info.filename.endswith('functools_model.py'):
+                    k = getattr(fr, 'map_counter', 0)
+                    fr.map_counter = k + 1
+                    return SLazyMap(f, src, fr, 'map#%d' % k)
+            raise Unsupported('map over a symbolic sequence outside a function')
     its = [interp.iterate(a) for a in args[1:]]
     return (interp.call(f, list(xs), {}) for xs in zip(*its))
 
@@ -618,6 +646,14 @@ def m_reduce(interp, args, kwargs):
     return acc
 
 
+@model(functools.partial)
+def m_partial(interp, args, kwargs):
+    from .interp import PartialObj
+    if not args:
+        raise _pyraise(TypeError("type 'partial' takes at least one argument"))
+    return PartialObj(args[0], args[1:], kwargs)
+
+
 def _chain(interp, parts):
     """itertools.chain over a concrete number of iterables: when one of them is a sequence of symbolic
     length the result is their concatenation (an immutable sequence stands for the one-shot iterator:
@@ -774,6 +810,103 @@ class _StrBox:
         return format(self.s, spec)
 
 
+# ============================================================================ eval / re
+
+COMMON_EXCEPTIONS = (SyntaxError, ValueError, TypeError, NameError, ZeroDivisionError, OverflowError, AttributeError,
+                     KeyError, IndexError, RecursionError)
+
+# canonical source text per exception class of eval (for replays)
+EVAL_WITNESS = {
+    'SyntaxError': '1 +', 'ValueError': "int('x')", 'TypeError': "1 + ''", 'NameError': 'x',
+    'ZeroDivisionError': '1//0', 'OverflowError': '2.0**10000', 'AttributeError': '(1).x', 'KeyError': '{}[1]',
+    'IndexError': '[][0]', 'RecursionError': "(lambda f: f(f))(lambda f: f(f))", 'ArbitraryException': '1//0',
+}
+
+
+def arbitrary_exception(interp, classes=COMMON_EXCEPTIONS, with_arbitrary=True):
+    """One of the given exception classes, or `ArbitraryException` (any other Exception), chosen
+    non-deterministically; its message is an arbitrary string."""
+    from .interp import ArbitraryException
+    classes = list(classes) + ([ArbitraryException] if with_arbitrary else [])
+    cls = classes[interp.st.choose(len(classes))]
+    msg = SStr(interp.st.fresh_str('exception.message'))
+    e = cls.__new__(cls)
+    e.args = (msg,)
+    if issubclass(cls, (SyntaxError, re_error())):
+        e.msg = msg
+    return e
+
+
+def re_error():
+    import re
+    return re.error
+
+
+@model(builtins.eval)
+def m_eval(interp, args, kwargs):
+    """eval of an arbitrary expression text: any value, or any Exception (not modelled: non-termination,
+    side effects of the expression)."""
+    st = interp.st
+    if st.choose(2) == 1:
+        raise _pyraise(arbitrary_exception(interp))
+    k = st.choose(5)
+    if k == 0:
+        return SInt(st.fresh_int('eval.int'))
+    if k == 1:
+        return SBool(st.fresh_bool('eval.bool'))
+    if k == 2:
+        return SStr(st.fresh_str('eval.str'))
+    if k == 3:
+        return None
+    return OpaqueVal(st.fresh_name('eval.value'))       # a float, a list, a function, ...
+
+
+# ============================================================================ stat
+
+def _stat_models():
+    import stat as _stat
+
+    def mk(name, others):
+        def m(interp, args, kwargs):
+            (mode,) = args
+            if isinstance(mode, (SOpt, SChoice)):
+                mode = interp.resolve(mode)
+            if not isinstance(mode, SInt):
+                return getattr(_stat, name)(mode)
+            f = z3.Function('stat.' + name, z3.IntSort(), z3.BoolSort())
+            for o in others:     # the file types are mutually exclusive
+                g = z3.Function('stat.' + o, z3.IntSort(), z3.BoolSort())
+                interp.st.assume(z3.Not(z3.And(f(mode.t), g(mode.t))))
+            return wrap(f(mode.t))
+
+        return m
+
+    names = ('S_ISREG', 'S_ISDIR', 'S_ISLNK', 'S_ISFIFO', 'S_ISSOCK', 'S_ISCHR', 'S_ISBLK')
+    for n in names:
+        MODELS[getattr(_stat, n)] = mk(n, [o for o in names if o != n])
+
+
+_stat_models()
+
+
+# ============================================================================ xml.etree.ElementTree
+
+def _etree_models():
+    from xml.etree import ElementTree as ET
+    from .pymodels import etree_model
+
+    MODELS[ET.Element] = lambda interp, args, kwargs: interp.call(etree_model.Element, args, kwargs)
+    MODELS[ET.SubElement] = lambda interp, args, kwargs: interp.call(etree_model.SubElement, args, kwargs)
+
+    def tree(interp, args, kwargs):
+        return interp.call(etree_model.ElementTree, args, kwargs)
+
+    MODELS[ET.ElementTree] = tree
+
+
+_etree_models()
+
+
 # ============================================================================ methods on symbolic values
 
 def call_sym_method(interp, recv, name, args, kwargs):
@@ -820,6 +953,8 @@ def sym_getitem(interp, obj, idx):
 # ============================================================================ symbolic sequences
 
 def slist_elem(interp, xs, idx_term):
+    if xs.volatile:
+        return xs.elem(interp, idx_term if not isinstance(idx_term, int) else z3.IntVal(idx_term))
     key = z3.simplify(idx_term).sexpr() if not isinstance(idx_term, int) else str(idx_term)
     v = xs.cache.get(key)
     if v is None:
@@ -922,7 +1057,12 @@ class SMap:
     key an operation touches (`_touch`); all operations preserve it.
 
     ``kty`` / ``vty`` are the shapes of keys / values (Str, Int, Bool; values may also be ``Iface`` of a
-    by-id interface: the array then holds the object ids)."""
+    by-id interface: the array then holds the object ids).
+
+    Keys may also be opaque objects whose interface names the attribute that decides their equality
+    (``map_key = 'ident'``: the model of ``__eq__`` / ``__hash__``).  With a value shape that has no scalar
+    sort (``Any_``, an interface that is not by-id, ``None``) the values are NOT tracked (``val is None``):
+    only the key set is symbolic, a read gives an arbitrary value of that shape."""
 
     def __init__(self, kty, vty, has, val, uid):
         self.kty = kty
@@ -940,9 +1080,28 @@ class SMap:
     def vsort(self):
         return scalar_sort(self.vty)
 
-    def _key(self, interp, k):
+    @property
+    def untracked(self):
+        return self.val is None
+
+    def _fresh_value(self, interp):
+        from .api import Ty
+        if isinstance(self.vty, Ty):
+            return self.vty.make(interp, self.uid + '[]')
+        return OpaqueVal(interp.st.fresh_name(self.uid + '[]'))
+
+    @staticmethod
+    def _key_value(interp, k):
+        """the value that decides the equality of a key: the key itself, or the `map_key` attribute of an
+        opaque object"""
         if isinstance(k, (SOpt, SChoice)):
             k = interp.resolve(k)
+        if isinstance(k, Opaque) and getattr(k._pv_iface, 'map_key', None):
+            k = interp.getattr(k, k._pv_iface.map_key)
+        return k
+
+    def _key(self, interp, k):
+        k = self._key_value(interp, k)
         try:
             t = to_z3(k)
         except TypeError:
@@ -952,6 +1111,8 @@ class SMap:
         return t
 
     def _unwrap(self, interp, v):
+        if self.val is None:
+            return None
         if isinstance(v, (SOpt, SChoice)):
             v = interp.resolve(v)
         t = term_of_value(v)
@@ -960,9 +1121,13 @@ class SMap:
         return t
 
     def _wrap(self, interp, t):
+        if self.val is None:
+            return self._fresh_value(interp)
         return value_of_term(interp, self.vty, t)
 
     def _touch(self, interp, kt):
+        if self.val is None:
+            return
         interp.st.assume(z3.Or(z3.Select(self.has, kt), z3.Select(self.val, kt) == default_term(self.vty)))
 
     # ----- operations
@@ -970,8 +1135,7 @@ class SMap:
         return SMap(self.kty, self.vty, self.has, self.val, interp.st.fresh_name(self.uid + '.copy'))
 
     def contains(self, interp, k):
-        if isinstance(k, (SOpt, SChoice)):
-            k = interp.resolve(k)
+        k = self._key_value(interp, k)
         try:
             t = to_z3(k)
         except TypeError:
@@ -984,28 +1148,30 @@ class SMap:
         kt = self._key(interp, k)
         if not interp.st.fork(wrap(z3.Select(self.has, kt))):
             raise _pyraise(KeyError(k if not isinstance(k, Sym) else '<symbolic>'))
-        return self._wrap(interp, z3.Select(self.val, kt))
+        return self._wrap(interp, None if self.val is None else z3.Select(self.val, kt))
 
     def get(self, interp, k, default=None):
         kt = self._key(interp, k)
         h = wrap(z3.Select(self.has, kt))
         # merge `get(k, default)` into one term when the default is a scalar of the value sort
-        dt = term_of_value(default) if default is not None else None
+        dt = term_of_value(default) if default is not None and self.val is not None else None
         if dt is not None and dt.sort() == self.vsort and not isinstance(h, bool) and not is_object_shape(self.vty):
             return wrap(z3.If(h.t, z3.Select(self.val, kt), dt))
         if interp.st.fork(h):
-            return self._wrap(interp, z3.Select(self.val, kt))
+            return self._wrap(interp, None if self.val is None else z3.Select(self.val, kt))
         return default
 
     def setitem(self, interp, k, v):
         kt = self._key(interp, k)
         vt = self._unwrap(interp, v)
         self.has = z3.Store(self.has, kt, z3.BoolVal(True))
-        self.val = z3.Store(self.val, kt, vt)
+        if self.val is not None:
+            self.val = z3.Store(self.val, kt, vt)
 
     def _remove(self, interp, kt):
         self.has = z3.Store(self.has, kt, z3.BoolVal(False))
-        self.val = z3.Store(self.val, kt, default_term(self.vty))
+        if self.val is not None:
+            self.val = z3.Store(self.val, kt, default_term(self.vty))
 
     def delitem(self, interp, k):
         kt = self._key(interp, k)
@@ -1016,7 +1182,7 @@ class SMap:
     def pop(self, interp, k, *default):
         kt = self._key(interp, k)
         if interp.st.fork(wrap(z3.Select(self.has, kt))):
-            v = self._wrap(interp, z3.Select(self.val, kt))
+            v = self._wrap(interp, None if self.val is None else z3.Select(self.val, kt))
             self._remove(interp, kt)
             return v
         if default:
@@ -1026,18 +1192,21 @@ class SMap:
     def setdefault(self, interp, k, default=None):
         kt = self._key(interp, k)
         if interp.st.fork(wrap(z3.Select(self.has, kt))):
-            return self._wrap(interp, z3.Select(self.val, kt))
+            return self._wrap(interp, None if self.val is None else z3.Select(self.val, kt))
         self.setitem(interp, k, default)
         return default
 
     def clear(self, interp):
         self.has = z3.K(self.ksort, z3.BoolVal(False))
-        self.val = z3.K(self.ksort, default_term(self.vty))
+        if self.val is not None:
+            self.val = z3.K(self.ksort, default_term(self.vty))
 
     def update(self, interp, other):
         if isinstance(other, (SOpt, SChoice)):
             other = interp.resolve(other)
         if isinstance(other, SMap):
+            if self.val is None or other.val is None:
+                raise Unsupported('symbolic map: update of / with a map whose values are not tracked')
             if other.ksort != self.ksort or other.vsort != self.vsort:
                 raise Unsupported('symbolic map: update with a map of other sorts')
             k = z3.Const(interp.st.fresh_name('k!upd'), self.ksort)
@@ -1056,6 +1225,8 @@ class SMap:
     def eq(self, interp, other):
         if other is self:
             return True
+        if self.val is None or (isinstance(other, SMap) and other.val is None):
+            raise Unsupported('symbolic map: == on a map whose values are not tracked')
         if isinstance(other, SMap):
             if other.ksort != self.ksort or other.vsort != self.vsort:
                 raise Unsupported('symbolic map: == between maps of different sorts')
@@ -1070,21 +1241,33 @@ class SMap:
     def havoc(self, interp, tag):
         base = interp.st.fresh_name('%s@%s' % (self.uid, tag))
         self.has = z3.Const(base + '.has', z3.ArraySort(self.ksort, z3.BoolSort()))
-        self.val = z3.Const(base + '.val', z3.ArraySort(self.ksort, self.vsort))
+        if self.val is not None:
+            self.val = z3.Const(base + '.val', z3.ArraySort(self.ksort, self.vsort))
 
     def terms(self):
-        return [self.has, self.val]
+        return [self.has, self.val] if self.val is not None else [self.has]
+
+
+def has_scalar_sort(ty):
+    try:
+        scalar_sort(ty)
+        return True
+    except Unsupported:
+        return False
 
 
 def new_smap(interp, name, kty, vty):
     uid = interp.st.fresh_name(name)
-    ks, vs = scalar_sort(kty), scalar_sort(vty)
-    return SMap(kty, vty, z3.Const(uid + '.has', z3.ArraySort(ks, z3.BoolSort())),
-                z3.Const(uid + '.val', z3.ArraySort(ks, vs)), uid)
+    ks = scalar_sort(kty)
+    has = z3.Const(uid + '.has', z3.ArraySort(ks, z3.BoolSort()))
+    if not has_scalar_sort(vty):
+        return SMap(kty, vty, has, None, uid)        # values not tracked
+    return SMap(kty, vty, has, z3.Const(uid + '.val', z3.ArraySort(ks, scalar_sort(vty))), uid)
 
 
 def smap_of_dict(interp, kty, vty, d, name='dict'):
-    m = SMap(kty, vty, z3.K(scalar_sort(kty), z3.BoolVal(False)), z3.K(scalar_sort(kty), default_term(vty)),
+    m = SMap(kty, vty, z3.K(scalar_sort(kty), z3.BoolVal(False)),
+             z3.K(scalar_sort(kty), default_term(vty)) if has_scalar_sort(vty) else None,
              interp.st.fresh_name(name))
     m.update(interp, d)
     return m
@@ -1246,7 +1429,11 @@ def reachable_smaps(v, depth=3, path='', out=None, seen=None):
 
 # ============================================================================ quantifiers (spec level)
 
+MAX_QUANT_LEAVES = 256
+
+
 def _quant(interp, args, is_forall):
+    from .path import QFrame
     lo, hi, pred = args
     st = interp.st
     j = st.fresh_int('j')
@@ -1278,24 +1465,53 @@ def q_forall_keys(interp, args, kwargs):
 
 
 def _quant_over(interp, j, j_value, rng, pred, is_forall):
+    from .path import QFrame
     st = interp.st
     st.no_fork += 1
     n_pc = len(st.pc)
     n_fresh = len(st.fresh_log)
     st.solver.push()
+    leaves = []
     st.side_conditions.append([])
     try:
-        with st.scope(rng):
-            if st.check() == z3.unsat:
-                body = True if is_forall else False
-            else:
-                body = interp.truth(interp.call(pred, [j_value], {}))
+        work = [[]]
+        while work:
+            qf = QFrame(work.pop())
+            st.qframes.append(qf)
+            n_sc = len(st.scopes)
+            try:
+                with st.scope(rng):
+                    if st.infeasible_site():
+                        v = True if is_forall else False
+                    elif qf.prefix:
+                        # a case combination in which the body raises: the body does not hold there
+                        # (natively the clause would raise, i.e. fail); without local case split the
+                        # exception propagates as before
+                        from .interp import PyRaise
+                        try:
+                            v = interp.truth(interp.call(pred, [j_value], {}))
+                        except PyRaise:
+                            v = False
+                    else:
+                        v = interp.truth(interp.call(pred, [j_value], {}))
+            finally:
+                del st.scopes[n_sc:]
+                st.qframes.pop()
+            leaves.append(([c for (c, _d) in qf.decisions], v))
+            work.extend(qf.pending)
+            if len(leaves) > MAX_QUANT_LEAVES:
+                raise Unsupported('more than %d case combinations inside a quantifier body' % MAX_QUANT_LEAVES)
     finally:
         st.no_fork -= 1
         st.solver.pop()
         learned = st.pc[n_pc:]
         del st.pc[n_pc:]
         side = st.side_conditions.pop()
+    if len(leaves) == 1 and not leaves[0][0]:
+        body = leaves[0][1]
+    else:
+        # the case conditions of the local runs partition the space: merge the values
+        body = wrap(z3.Or(*[z3.And(*(conds + [to_z3(v)])) for (conds, v) in leaves]))
     if side:
         body = wrap(z3.And(*(side + [to_z3(body)])))
     # facts assumed about the element at the arbitrary index j hold for every index
@@ -1341,6 +1557,108 @@ def q_forall(interp, args, kwargs):
 
 def q_exists(interp, args, kwargs):
     return _quant(interp, args, False)
+
+
+def _prefix_fun(interp, args, is_count):
+    """sum_prefix(xs, k, f) / count_prefix(xs, k, pred): the value P(k) of the prefix function of the
+    sequence, with the definition unfolded at k:  P(0) = 0,  P(k) = P(k-1) + f(xs[k-1])  for 0 < k <= len.
+    Sound for sequences that only grow at the end (append): elements below an index never change."""
+    xs, k, f = args[:3]
+    extra = list(args[3:])       # further (fixed) arguments of f
+    st = interp.st
+    if isinstance(xs, (SOpt, SChoice)):
+        xs = interp.resolve(xs)
+    if isinstance(k, (SOpt, SChoice)):
+        k = interp.resolve(k)
+
+    def value_at(x):
+        v = interp.call(f, [x] + extra, {})
+        if is_count:
+            t = interp.truth(v)
+            return 1 if t is True else 0 if t is False else wrap(z3.If(t.t, 1, 0))
+        if isinstance(v, (SOpt, SChoice)):
+            v = interp.resolve(v)
+        if isinstance(v, (bool, SBool)):
+            return wrap(z3.If(to_z3(v), 1, 0))
+        if not isinstance(v, (int, SInt)):
+            raise Unsupported('sum_prefix: summand is not an integer')
+        return v
+
+    if not isinstance(xs, SList):
+        if isinstance(k, Sym):
+            raise Unsupported('sum_prefix over a concrete sequence with symbolic bound')
+        acc = 0
+        for x in list(interp.iterate(xs))[:k]:
+            acc = interp.binop(ast.Add, acc, value_at(x))
+        return acc
+    if not isinstance(f, types.FunctionType) or f.__closure__:
+        raise Unsupported('sum_prefix/count_prefix need a module-level function (no lambda/closure)')
+    base, idx = xs.ident if xs.ident is not None else (xs.uid, ())
+    name = '%s<%s|%s.%s>' % ('count' if is_count else 'sum', base, f.__module__, f.__qualname__)
+    idx = list(idx)
+    for e in extra:      # the prefix function also depends on the extra arguments
+        if isinstance(e, (SOpt, SChoice)):
+            e = interp.resolve(e)
+        if isinstance(e, (SInt, SBool, SStr, int, str, bool)):
+            idx.append(to_z3(e))
+        elif isinstance(e, Opaque):
+            name += '|' + e._pv_uid
+            idx.extend(e._pv_index)
+        else:
+            raise Unsupported('sum_prefix/count_prefix: extra argument %r' % (e,))
+    fn = z3.Function(name, *([x.sort() for x in idx] + [z3.IntSort(), z3.IntSort()]))
+    P = lambda t: fn(*(idx + [t]))
+    kt = to_z3(k)
+    st.assume(P(z3.IntVal(0)) == 0)
+    if not (isinstance(k, int) and k <= 0):
+        in_range = z3.And(kt > 0, kt <= xs.length)
+        with st.scope(in_range):
+            if not st.infeasible_site():
+                v = value_at(slist_elem(interp, xs, z3.simplify(kt - 1)))
+                st.assume(P(kt) == P(kt - 1) + to_z3(v))
+        if is_count:
+            # consequences of the definition by induction on k (trusted lemmas, DESIGN 2.5):
+            # bounds, and a count never decreases
+            st.assume(z3.Implies(z3.And(kt >= 0, kt <= xs.length), z3.And(P(kt) >= 0, P(kt) <= kt)))
+            lemma_key = ('count-monotone', name)
+            if lemma_key not in st.ghost:
+                st.ghost[lemma_key] = True
+                a, b = z3.Int(name + '!a'), z3.Int(name + '!b')
+                st._add(z3.ForAll([a, b], z3.Implies(z3.And(0 <= a, a <= b, b <= xs.length), P(a) <= P(b))))
+    return wrap(P(kt))
+
+
+def q_sum_prefix(interp, args, kwargs):
+    return _prefix_fun(interp, args, False)
+
+
+def q_count_prefix(interp, args, kwargs):
+    return _prefix_fun(interp, args, True)
+
+
+def q_nat_of_str(interp, args, kwargs):
+    """SMT-LIB str.to_int: the number denoted by a non-empty string of ASCII digits, else -1."""
+    (s,) = args
+    if isinstance(s, (SOpt, SChoice)):
+        s = interp.resolve(s)
+    if isinstance(s, str):
+        return int(s) if s != '' and all(c in '0123456789' for c in s) else -1
+    if not isinstance(s, SStr):
+        raise Unsupported('nat_of_str of a non-string')
+    return wrap(z3.StrToInt(s.t))
+
+
+def q_keys_subset(interp, args, kwargs):
+    a, b = args
+    if isinstance(a, dict) and isinstance(b, dict):
+        return all(k in b for k in a)
+    if isinstance(a, dict) and isinstance(b, SMap):
+        parts = [to_z3(b.contains(interp, k)) for k in a]
+        return wrap(z3.And(*parts)) if parts else True
+    if not (isinstance(a, SMap) and isinstance(b, SMap)):
+        raise Unsupported('keys_subset of %r, %r' % (type(a).__name__, type(b).__name__))
+    y = z3.Const(interp.st.fresh_name('key'), a.ksort)
+    return wrap(z3.ForAll([y], z3.Implies(z3.Select(a.has, y), z3.Select(b.has, y))))
 
 
 # ============================================================================ prefix folds (ghost history functions)
